@@ -46,8 +46,16 @@ def install_helper():
     m.NOTES = []
 
     def note(v):
-        m.NOTES.append(canon(v))
+        import scenic.syntax.veneer as veneer
+
+        sim = veneer.currentSimulation
+        sim.__dict__.setdefault("_verif_notes", []).append(canon(v))
         return True
+
+    def notes_of(sim):
+        return list(getattr(sim, "_verif_notes", ()))
+
+    m.notes_of = notes_of
 
     from scenic.core.vectors import Orientation, Vector
 
@@ -308,7 +316,8 @@ def make_state_simulator(offset=None, drift=(1.0, 0.5, 0.25)):
             i = self.objects.index(obj)
             t = self.currentTime
             if prop == "position":
-                p0 = self._p0.setdefault(i, obj.position)
+                # a simulator reports floats (ints beyond 2^53 would not survive the <d codec)
+                p0 = self._p0.setdefault(i, Vector(*(float(c) for c in obj.position)))
                 return p0 + Vector(drift[0] * t, drift[1] * t, drift[2] * t)
             if ty is Vector:
                 k = sum(map(ord, prop)) % 7
@@ -517,7 +526,7 @@ def gen_program(seed, idx):
     # behaviours
     beh_names = []
     if dynamic:
-        nsub = r.randint(1, 3)
+        nsub = r.randint(1, 2)
         for b in range(nsub):
             L.append(f"behavior Sub{b}(k):")
             for _ in range(r.randint(1, 2)):
@@ -593,8 +602,8 @@ def gen_program(seed, idx):
         elif k == 2 and i > 0:
             g.f("facing_toward")
             specs.append("facing toward ego")
-        for j in range(r.randint(1, 3)):
-            specs.append(f"with p{j} {g.anyval()}")
+        for j in range(r.randint(1, 2)):
+            specs.append(f"with p{j} {g.anyval(1 if j else 0)}")
         if r.random() < 0.4:
             g.f("random_shape")
             specs.append(r.choice([
@@ -609,7 +618,7 @@ def gen_program(seed, idx):
             specs.append(f"with behavior Main({g.anyval(1)})")
             g.f("behavior_random_arg")
         L.append(f"{ind}{name} = new {cls} " + ", ".join(specs))
-    for j in range(r.randint(0, 3)):
+    for j in range(r.randint(0, 2)):
         params.append(f"q{j}")
         L.append(f"{ind}param q{j} = {g.anyval()}")
     if r.random() < 0.5:
